@@ -388,12 +388,18 @@ func (g *Gen) Resp(op string, final bool, rich bool) *RespSpec {
 		}
 	}
 	if (sp.Ctor == "bind" || sp.Ctor == "searchdone") && g.Ch.Choose(2) == 1 {
-		n := 1 + g.Ch.Choose(3)
-		var cs []CtrlRec
-		for i := 0; i < n; i++ {
-			cs = append(cs, g.Control())
+		// SetControls replaces: the last call decides (possibly with none)
+		for k, calls := 0, 1+g.Ch.Choose(2); k < calls; k++ {
+			n := 1 + g.Ch.Choose(3)
+			if k > 0 {
+				n = g.Ch.Choose(3)
+			}
+			cs := []CtrlRec{}
+			for i := 0; i < n; i++ {
+				cs = append(cs, g.Control())
+			}
+			sp.Setters = append(sp.Setters, Setter{Kind: "controls", Ctrl: cs})
 		}
-		sp.Setters = append(sp.Setters, Setter{Kind: "controls", Ctrl: cs})
 	}
 	return sp
 }
